@@ -1,12 +1,17 @@
 """Structure properties decided through the diagram state-machine model (Diagram.v)."""
 from __future__ import annotations
+import os
 from props import *
 import props as P
 
 PLAIN = ("expand", "bfs", "dfs", "min", "target")
 
+THOROUGH_SCALE = int(os.environ.get("VERIF_THOROUGH_SCALE", "3"))
 def _sizes(tier, q, t):
-    return q if tier == "quick" else t
+    """quick / thorough value of a parameter; case COUNTS (thorough value >= 300) are multiplied by VERIF_THOROUGH_SCALE"""
+    if tier == "quick":
+        return q
+    return t * THOROUGH_SCALE if t >= 300 else t
 
 @register("C02")
 def run_C02(tier, seed):
